@@ -68,6 +68,15 @@ Proof.
   repeat bm; cbn; auto; rewrite ?orb_true_r; auto.
 Qed.
 
+(* the same at the end of the body of an ERROR response (State::SendErrorPayload, dispatcher.rs:718-746) *)
+Lemma body_end_err_unread_closes c s :
+  close_unread s = true -> messages s = [] ->
+  let s' := body_end_err c s in finished s' = true /\ (linger s' || shutdown s') = true /\ dstate s' = SNone.
+Proof.
+  intros CU M. unfold body_end_err, complete_flags, finish_hook, add_trace. rewrite CU, M. cbn.
+  repeat bm; cbn; auto; rewrite ?orb_true_r; auto.
+Qed.
+
 (* LINGER / SHUTDOWN|FINISHED are entered at a response end ONLY for an unread, undrainable payload *)
 Lemma keepalive_decision c f s :
   dstate s = SNone -> draining s = false -> messages s = [] ->
